@@ -117,6 +117,8 @@ structure RB (k : Nat) (s : State) (g : G) (j : J) : Prop where
   freed5 : s.freed = true → s.stopPc = 5
   fr : (s.stopPc ≠ 0 ∧ s.stopFree = true) → k = 0
   useE : s.useExpire = true → s.expire.isSome = true
+  oldLe : j.oldCb ≤ j.openCb
+  old0 : s.stopPc = 5 → j.oldCb = 0
 
 /-- the relation while `nng_aio_free` has not returned -/
 structure R (k : Nat) (s : State) (g : G) (j : J) : Prop where
@@ -192,7 +194,7 @@ macro "r_open" hR:ident : tactic => `(tactic| (
   rcases ‹Inv2 _› with ⟨g1,g2,g3,g4,g5,g6,g7⟩
   rcases ‹Inv3 _› with ⟨k1,k2,k3,k4,k5,k6,k7,k8,k9⟩
   rcases ‹Inv4 _› with ⟨m1,m2,m3,m4,m4b,m4c,m5,m6,m7,m8,m9,m10,m11,m12,m13⟩
-  rcases $hR:ident with ⟨⟨b1,b2,b3,b4,b5,b6,b7,b8,b9,b10,b11,b12,b13,b14,b15,b16,b17,b18⟩, hh, ht⟩
+  rcases $hR:ident with ⟨⟨b1,b2,b3,b4,b5,b6,b7,b8,b9,b10,b11,b12,b13,b14,b15,b16,b17,b18,b19,b20⟩, hh, ht⟩
   have c1 : ESTOPPED ≠ ETIMEDOUT := estopped_ne_etimedout
   have c2 : ESTOPPED ≠ ECANCELED := estopped_ne_ecanceled
   have c3 : ETIMEDOUT ≠ ECANCELED := etimedout_ne_ecanceled))
